@@ -111,9 +111,7 @@ fn check_bilinear(c: &Bilin) -> CaseResult {
         return pass(false, "zero-scalar-skipped");
     }
     let e = (&a * &b) % n;
-    if e >= n - 1u32 {
-        return pass(false, "exponent-N-1-skipped"); // Fp12::pow demands e < N-1
-    }
+    // Fp12::pow admits every exponent up to N-1, and e = ab mod N never exceeds it
     let r = catch(|| {
         let p = Point::g_mul(&to_limbs(&b));
         let q = TwistPoint::g_mul(&to_limbs(&a));
